@@ -12,13 +12,22 @@
 //!                       near 2^64 (overflow), signs, comments, missing numbers
 //!   c17.load            (shared with C17) the compressed branch and the indirect /Length of resolve_ref:
 //!                       model with table-instantiated parsers against Storage::resolve
+//!   c11.crypt.member    encrypted twin documents: the member slices (plaintext) through the value parser WITHOUT a
+//!                       decryption context (Model/Parser.lean) against what the library resolves for the compressed object
 //! Oracle (the implementation against the property itself):
 //!   c11.twins           generated files in which every value is stored twice — as an ordinary indirect
 //!                       object and inside an object stream (first / middle / last, any separator, filters
 //!                       none / Flate / ASCIIHex+Flate) — and every stream three times (/Length direct,
 //!                       reference to a direct integer, reference to a compressed integer): the twins
 //!                       must resolve identically with ANY and with restricted flags, the streams must
-//!                       deliver the written bytes (raw and decoded)
+//!                       deliver the written bytes (raw and decoded); strict and tolerant options alternate
+//!   c11.twins.encrypted the same twins as *encrypted* documents of every handler variant (R2 RC4-40 … R6 AES-256),
+//!                       opened with the user or the owner password, strict or tolerant: BOTH twins must read as the
+//!                       plaintext (direct strings are encrypted per object, members of an object stream are not
+//!                       encrypted individually), all three /Length forms must decode to the plain data
+
+#[path = "c11_crypt.rs"]
+pub mod crypt;
 
 use crate::c17::common::*;
 use crate::driver::Driver;
@@ -365,13 +374,14 @@ fn flags_for(kind: &str) -> ParseFlags {
     }
 }
 
-fn check_twin_file(or: &mut Oracle, tf: &TwinFile, replay: Value) {
+fn check_twin_file(or: &mut Oracle, tf: &TwinFile, tolerant: bool, replay: Value) {
     let res = catch_unwind(AssertUnwindSafe(|| {
-        let mut storage = Storage::with_cache(tf.bytes.clone(), ParseOptions::strict(), NoCache, NoCache, NoLog).map_err(|e| format!("with_cache: {}", e))?;
+        let opts = if tolerant { ParseOptions::tolerant() } else { ParseOptions::strict() };
+        let mut storage = Storage::with_cache(tf.bytes.clone(), opts, NoCache, NoCache, NoLog).map_err(|e| format!("with_cache: {}", e))?;
         storage.load_storage_and_trailer().map_err(|e| format!("load: {}", e))?;
         let resolver = storage.resolver();
         let mut bad: Vec<(String, String)> = vec![];
-        let mut hist: Vec<String> = vec![];
+        let mut hist: Vec<String> = vec![format!("options={}", if tolerant { "tolerant" } else { "strict" })];
         for (kind, d, c, pos, sepk, filter) in &tf.twins {
             hist.push(format!("kind={}", kind));
             hist.push(format!("position={}", pos));
@@ -452,7 +462,9 @@ fn twin_oracle(seed: u64, thorough: bool, rep: &mut Report, only: Option<&Value>
         if let Some(r) = only { if r["stream"] != "c11.witness" || r["case"].as_u64() != Some(k as u64) { continue; } }
         let mut rng = Rng::derive(7, "c11.witness", k as u64);
         let tf = gen_twin_file(&mut rng, Some((t, kind)));
-        check_twin_file(&mut or, &tf, json!({"stream": "c11.witness", "case": k, "file_hex": hex(&tf.bytes), "doc": tf.desc}));
+        for tolerant in [false, true] {
+            check_twin_file(&mut or, &tf, tolerant, json!({"stream": "c11.witness", "case": k, "tolerant": tolerant, "file_hex": hex(&tf.bytes), "doc": tf.desc}));
+        }
     }
     let (from, to) = match only {
         Some(r) if r["stream"] == "c11.twins" => { let c = r["case"].as_u64().unwrap_or(0); (c, c + 1) }
@@ -462,9 +474,104 @@ fn twin_oracle(seed: u64, thorough: bool, rep: &mut Report, only: Option<&Value>
     for case in from..to {
         let mut rng = Rng::derive(seed, "c11.twins", case);
         let tf = gen_twin_file(&mut rng, None);
-        check_twin_file(&mut or, &tf, json!({"stream": "c11.twins", "seed": seed, "case": case, "file_hex": hex(&tf.bytes), "doc": tf.desc}));
+        let tolerant = case % 2 == 1;
+        check_twin_file(&mut or, &tf, tolerant, json!({"stream": "c11.twins", "seed": seed, "case": case, "tolerant": tolerant, "file_hex": hex(&tf.bytes), "doc": tf.desc}));
     }
     rep.oracles.push(or);
+}
+
+/// the encrypted twin files: oracle = the plaintext for BOTH storage forms; correspondence = the member slices
+/// through the value parser *without* a decryption context (Model/Parser.lean, `c03.parse plain`) against what the
+/// library resolves for the compressed object of the encrypted document
+fn crypt_twins(driver: &Driver, seed: u64, thorough: bool, rep: &mut Report, only: Option<&Value>) {
+    let mut or = Oracle::new("c11.twins.encrypted");
+    let mut st = Stream_::new("c11.crypt.member", true);
+    let (from, to) = match only {
+        Some(r) if r["stream"] == "c11.twins.encrypted" => { let c = r["case"].as_u64().unwrap_or(0); (c, c + 1) }
+        Some(_) => (0, 0),
+        None => (0, if thorough { 20_000 } else { 1500 }),
+    };
+    let mut reqs: Vec<(String, String)> = vec![];
+    for case in from..to {
+        let mut rng = Rng::derive(seed, "c11.twins.encrypted", case);
+        let tf = crypt::build(&mut rng);
+        let tolerant = rng.chance(1, 2);
+        let owner = rng.chance(1, 3);
+        let replay = json!({"stream": "c11.twins.encrypted", "seed": seed, "case": case, "variant": tf.variant, "tolerant": tolerant, "owner_password": owner, "file_hex": hex(&tf.bytes), "doc": tf.desc});
+        let res = catch_unwind(AssertUnwindSafe(|| {
+            let opts = if tolerant { ParseOptions::tolerant() } else { ParseOptions::strict() };
+            let mut storage = Storage::with_cache(tf.bytes.clone(), opts, NoCache, NoCache, NoLog).map_err(|e| format!("with_cache: {}", e))?;
+            storage.load_storage_and_trailer_password(if owner { &tf.owner_pw } else { &tf.user_pw }).map_err(|e| format!("load: {}", e))?;
+            let resolver = storage.resolver();
+            let mut bad: Vec<(String, String)> = vec![];
+            let mut corr: Vec<(u64, String)> = vec![];
+            for t in &tf.twins {
+                let want = crypt::canon_pv(&t.plain);
+                let rd = resolver.resolve(PlainRef { id: t.direct.0, gen: t.direct.1 });
+                let rc = resolver.resolve(PlainRef { id: t.compressed, gen: 0 });
+                let (a, b) = (canon_result(&rd, &resolver), canon_result(&rc, &resolver));
+                if a != want {
+                    bad.push((format!("encrypted-direct:{}", t.kind), format!("{}: {} stored as object {} {} of an encrypted document reads {}, the plaintext is {}", tf.variant, t.kind, t.direct.0, t.direct.1, trunc(&a), trunc(&want))));
+                }
+                if b != want {
+                    bad.push((format!("encrypted-compressed:{}", t.kind), format!("{}: {} stored in an object stream ({}, {} member, separator {}, filter {:?}) of an encrypted document reads {}, the plaintext is {}", tf.variant, t.kind, t.compressed, t.position, t.separator, t.filter, trunc(&b), trunc(&want))));
+                }
+                if let Ok(p) = &rc {
+                    let tr = crate::c03::TestResolve::new(&vec![], false);
+                    corr.push((t.compressed, format!("ok {}", crate::c03::render::show_canon(&crate::c03::prim_to_val(p, &tr)))));
+                } else {
+                    corr.push((t.compressed, "err".to_string()));
+                }
+            }
+            for (ids, plain, flate) in &tf.streams {
+                let how = ["direct", "indirect-direct", "indirect-compressed"];
+                for (k, id) in ids.iter().enumerate() {
+                    match resolver.resolve(PlainRef { id: *id, gen: 0 }) {
+                        Ok(Primitive::Stream(s)) => match Stream::<()>::from_stream(s.clone(), &resolver).and_then(|x| x.data(&resolver)) {
+                            Ok(d) if &*d == &plain[..] => {}
+                            Ok(d) => bad.push((format!("encrypted-length-twin:{}", how[k]), format!("{}: stream {} (/Length {}, flate {}) decodes to {} bytes, the plaintext has {}", tf.variant, id, how[k], flate, d.len(), plain.len()))),
+                            Err(e) => bad.push((format!("encrypted-length-twin:{}", how[k]), format!("{}: stream {} (/Length {}): data unreadable: {}", tf.variant, id, how[k], err_kind(&e)))),
+                        },
+                        Ok(p) => bad.push((format!("encrypted-length-twin:{}", how[k]), format!("stream {} reads as {}", id, trunc(&canon(&p, &resolver))))),
+                        Err(e) => bad.push((format!("encrypted-length-twin:{}", how[k]), format!("{}: stream {} whose /Length is {} does not read: {}", tf.variant, id, how[k], err_kind(&e)))),
+                    }
+                }
+            }
+            Ok::<_, String>((bad, corr))
+        }));
+        or.count(&format!("variant={}", tf.variant));
+        or.count(&format!("options={}", if tolerant { "tolerant" } else { "strict" }));
+        or.count(&format!("password={}", if owner { "owner" } else { "user" }));
+        for t in &tf.twins {
+            or.count(&format!("kind={}", t.kind));
+            or.count(&format!("position={}", t.position));
+            or.count(&format!("filter={:?}", t.filter));
+        }
+        or.case(&format!("{}", case), true, || json!({"doc": tf.desc, "twins": tf.twins.len(), "streams": tf.streams.len()}));
+        match res {
+            Ok(Ok((bad, corr))) => {
+                let mut seen = std::collections::BTreeSet::new();
+                for (sig, what) in bad { if seen.insert(sig.clone()) { or.fail(&sig, &what, replay.clone()); } }
+                for (cid, imp) in corr {
+                    if let Some((_, sl)) = tf.slices.iter().find(|x| x.0 == cid) {
+                        if sl.len() <= 4000 { reqs.push((crate::c03::parse_request("plain", sl, 0, 1023, 0, &vec![], None), imp)); }
+                    }
+                }
+            }
+            Ok(Err(e)) => or.fail("encrypted-twin-file-unloadable", &format!("{}: a well-formed encrypted document does not open with its {} password: {}", tf.variant, if owner { "owner" } else { "user" }, e), replay),
+            Err(_) => or.fail("panic", "panic while reading a well-formed encrypted document", replay),
+        }
+    }
+    let rq: Vec<String> = reqs.iter().map(|c| c.0.clone()).collect();
+    for ((r, imp), m) in reqs.iter().zip(driver.ask(&rq).iter()) {
+        // the model answers `ok <value> <cursor>`; the implementation side has the value only
+        let mm = crate::c03::canon_parse_answer("plain", m);
+        let mv = match mm.rsplit_once(' ') { Some((v, _)) if mm.starts_with("ok ") => v.to_string(), _ => mm.clone() };
+        st.count(&format!("outcome={}", mv.split(' ').next().unwrap_or("")));
+        st.case(r, &mv, imp, true);
+    }
+    rep.oracles.push(or);
+    rep.streams.push(st);
 }
 
 pub fn run(driver: &Driver, seed: u64, thorough: bool, replay: Option<&Value>) -> Report {
@@ -472,7 +579,9 @@ pub fn run(driver: &Driver, seed: u64, thorough: bool, replay: Option<&Value>) -
     if let Some(r) = replay {
         let seed = r["seed"].as_u64().unwrap_or(seed);
         let s = r["stream"].as_str().unwrap_or("");
-        if s == "c11.twins" || s == "c11.witness" {
+        if s == "c11.twins.encrypted" {
+            crypt_twins(driver, seed, thorough, &mut rep, Some(r));
+        } else if s == "c11.twins" || s == "c11.witness" {
             twin_oracle(seed, thorough, &mut rep, Some(r));
         } else if s == "c11.member" {
             member_streams(driver, seed, thorough, &mut rep, r["case"].as_u64());
@@ -485,5 +594,6 @@ pub fn run(driver: &Driver, seed: u64, thorough: bool, replay: Option<&Value>) -
     member_streams(driver, seed, thorough, &mut rep, None);
     crate::c17::load_streams(driver, seed, thorough, &mut rep);
     twin_oracle(seed, thorough, &mut rep, None);
+    crypt_twins(driver, seed, thorough, &mut rep, None);
     rep
 }
